@@ -7,7 +7,9 @@
 (c) contraction independence: every llvm.fmuladd in library code is exact either way (power-of-two multiplier).
 (d) optimisation-level independence: no reachable UB in any wrapper (re-derived here from the same runs), and no false
     [[gnu::const]]/[[gnu::pure]] attribute on a function that writes through a reference.
-Not decided: 'the two square-root algorithms never differ by more than one ulp' and code generator correctness."""
+(e) the two square-root algorithms differ by at most one ulp (loop invariant + shape lemma).
+(f) the arms selected by std::is_constant_evaluated() (configuration K20C) equal the run-time arms (summary equivalence).
+Not decided: code generator correctness."""
 import multiprocessing as mp
 import random
 import os
@@ -50,6 +52,93 @@ def _work(name):
     out["broke"] += V.broken
     out["obl"], out["dis"] = V.obligations, V.discharged
     return out
+
+
+def _fn_text(ctx, name):
+    fn = ctx.built.mod.functions.get(name)
+    if fn is None:
+        return None
+    import re
+    out = []
+    for bn in fn.order:
+        out.append(bn + ":")
+        for i in fn.blocks[bn].insts:
+            out.append(re.sub(r", !dbg !\d+|, !nosanitize !\d+|, !llvm\.loop !\d+|!dbg !\d+| #\d+", "", i.text))
+    return "\n".join(out)
+
+
+def _work_ce(name):
+    """the constant-evaluation arms (K20C) against the run-time arms of the build that selects the same square-root algorithm"""
+    V = common.Verdict("C08", "quick", 0)
+    V.known = {}
+    out = {"name": name, "viol": [], "inconc": [], "broke": [], "obl": 0, "dis": 0, "pairs": 0, "same_ir": False, "ref": None}
+    try:
+        tc = _fn_text(_G["ce"], name)
+        tb = _fn_text(_G["ce_ref20"], name)
+        if tc is None or tb is None:
+            return out
+        if tc == tb:
+            out["same_ir"] = True
+            return out
+        uses_sqrt = ("@sqrt" in tb) or ("llvm.sqrt" in tb)
+        ref = _G["ce_ref17a"] if uses_sqrt else _G["ce_ref20"]
+        out["ref"] = ref.config
+        if name not in ref.built.entries:
+            return out
+        rc = _G["ce"].run(name)
+        rr = ref.run(name)
+        for a in rc.alarms:
+            if a.status == "violation":
+                V.oblige(False)
+                V.violation(a.kind, a.site, "%s in %s(%s) when the constant-evaluation arms are taken [K20C] at %s" % (
+                    a.kind, name, ", ".join(map(repr, a.witness)), a.where), {"wrapper": name, "args": list(a.witness), "config": "K20C", "expected": a.kind})
+        if name not in SKIP_EQUIV:
+            out["pairs"] = lib.check_equiv(V, rc, rr, "constant evaluation (is_constant_evaluated() arms, K20C) and run time (%s) return the same value" % ref.config,
+                                           site=rc.ent.api or name)
+    except Broken as e:
+        out["broke"].append("%s [K20C]: %s" % (name, e))
+    except Infeasible:
+        out["broke"].append("%s [K20C]: no feasible path" % name)
+    out["viol"] = V.violations
+    out["inconc"] += V.inconclusive
+    out["broke"] += V.broken
+    out["obl"], out["dis"] = V.obligations, V.discharged
+    return out
+
+
+def const_eval_arms(V, tier):
+    """(f) the arms selected by std::is_constant_evaluated(): compiled as ordinary code (configuration K20C) and compared with the
+    run-time arms by summary equivalence - with K20 where no square root is involved, with the abacus build K17A where one is
+    (the property lets the algorithm differ, not the value for a given algorithm)"""
+    try:
+        from concurrent.futures import ThreadPoolExecutor
+        with ThreadPoolExecutor(3) as ex:
+            fs = {k: ex.submit(lib.Ctx, c, [], None, False, (), True) for k, c in (("ce", "K20C"), ("ce_ref20", "K20"), ("ce_ref17a", "K17A"))}
+            for k, f in fs.items():
+                _G[k] = f.result()
+    except Broken as e:
+        V.broke("constant-evaluation arms: %s" % e)
+        return
+    names = sorted(n for n in _G["ce"].built.entries if n.startswith("w_") and n in _G["ce_ref20"].built.entries)
+    ctx = mp.get_context("fork")
+    with ctx.Pool(min(16, os.cpu_count() or 1)) as pool:
+        outs = pool.map(_work_ce, names, chunksize=2)
+    same = sum(1 for o in outs if o["same_ir"])
+    compared = [o for o in outs if o["ref"]]
+    for o in outs:
+        V.obligations += o["obl"]
+        V.discharged += o["dis"]
+        for w in o["broke"]:
+            V.broke(w)
+        for w in o["inconc"]:
+            V.inconc(w)
+        for v in o["viol"]:
+            V.violation(v["kind"], v["site"], v["text"], v.get("replay"))
+    V.oblige(True, same)
+    V.cover["const_eval_arms"] = {"wrappers": len(names), "identical_ir_in_both_modes": same, "compared_by_summary_equivalence": len(compared),
+                                  "against_abacus_build": sorted(o["name"] for o in compared if o["ref"] == "K17A")[:40]}
+    if len(names) < 250:
+        V.broke("constant-evaluation arms: only %d wrappers" % len(names))
 
 
 def ast_rules(V, cfg):
@@ -179,6 +268,7 @@ def run(tier, seed):
                     "(multiplier is not a power of two or the product can overflow/underflow)" % (name, cfg, line))
     V.oblige(True, len(set((c, l) for c, l, s in [(a, b, c) for o in outs for a, b, c in o["fma"]])) - len(fma_bad))
     sqrt_algorithms(V)
+    const_eval_arms(V, tier)
     V.cover["programs"] = 2 * len(names)
     if len(names) < 250 and tier != "quick":
         V.broke("only %d wrappers compared" % len(names))
@@ -191,6 +281,10 @@ def run(tier, seed):
             "results. (d) no reachable UB in any wrapper in either configuration (so every -O level yields the abstract-machine value), and "
             "no [[gnu::const]]/[[gnu::pure]] function writes through a reference. (e) the two square-root algorithms: detail::sqrt_abacus returns floor(y) with "
             "y = sqrt(65536 raw) (inductive loop invariant, fxai.isqrt) and detail::sqrt_std_math returns an integer within 0.5 + 2^-19 of y "
-            "(shape lemma of C13), so their difference is 0 or 1 ulp for every 0 <= raw < 2^47. GCC/Clang code generators are trusted.")
+            "(shape lemma of C13), so their difference is 0 or 1 ulp for every 0 <= raw < 2^47. (f) constant evaluation versus run time: the configuration K20C forces "
+            "std::is_constant_evaluated() / __builtin_is_constant_evaluated() to true, so the arms a constant evaluation takes are compiled as "
+            "ordinary code; a wrapper whose IR is identical in K20 and K20C has no such arm, every other one is compared by summary equivalence "
+            "with the run-time build that selects the same square-root algorithm (K20, or the abacus build K17A for sqrt, hypot, asin, acos - the "
+            "loop enters as its verified isqrt summary on both sides). GCC/Clang code generators are trusted.")
     return V.finish("other", expl, "./fx check C08 --tier %s" % tier,
                     extra={"wrappers_compared": len(names), "joint_path_pairs": pairs, "fmuladd_sites_seen": fma_total, "configs": ["K17", "K17A", "K20"]})
